@@ -4,6 +4,7 @@
 use std::io::{self, BufRead, Write};
 use std::panic::{catch_unwind, AssertUnwindSafe};
 
+mod cal;
 mod dates;
 
 pub type Ints = Vec<i128>;
@@ -31,6 +32,10 @@ pub fn hash(v: &Ints) -> i128 {
     h
 }
 
+pub fn catch<T, F: FnOnce() -> T>(f: F) -> Option<T> {
+    catch_unwind(AssertUnwindSafe(f)).ok()
+}
+
 pub fn f2i(x: f64) -> i128 {
     x.to_bits() as i128
 }
@@ -56,6 +61,7 @@ fn main() {
         let a: Ints = it.map(|t| t.parse::<i128>().expect("int")).collect();
         let res: Ints = match catch_unwind(AssertUnwindSafe(|| match domain {
             "dates" => dates::run(&op, &a),
+            "cal" => cal::run(&op, &a),
             _ => panic!("unknown domain"),
         })) {
             Ok(v) => v,
